@@ -110,6 +110,15 @@ def run_permutations(shard):
     return acc
 
 
+# stereo that exists only through a ring axis (alkylidene-cycloalkanes, ring-ring double bonds, ring-attached allenes): RDKit does not perceive it
+AXIAL = ['C/C=C1/CC[C@H](C)CC1', 'C/C=C1\\CC[C@H](C)CC1', 'C1C[C@H](C)CC/C1=C/C', 'C[C@H]1CCC(CC1)=C1CC[C@H](C)CC1', 'C[C@H]1CCC(CC1)=C1CC[C@@H](C)CC1', 'CC=[C@]=C1CC[C@H](C)CC1',
+         'CC=[C@@]=C1CC[C@H](C)CC1', 'C/C=C1/C[C@H](C)C1', 'F/C=C1/C[C@@H](C)C1', 'C/C=C1/CC[C@](C)(F)CC1']
+
+
+def n_labels(m):
+    return sum(a.stereo is not None for _, a in m.atoms()) + sum(b.stereo is not None for *_, b in m.bonds())
+
+
 def rd_same_text(a, b):
     from rdkit import Chem
     from ..oracle import rdk
@@ -128,7 +137,7 @@ def run_spellings(shard):
     k, nsh, tier = shard
     acc = Acc()
     fam = [c[0] for c in CENTRES] + ALKENES + inputs.ring_stereo_family() + ['C[C@H](O)[C@@H](N)C(=O)O', 'C[C@H]1CC[C@H](CC1)C(C)C', 'O[C@H]1[C@H](O)[C@@H](O)[C@H]1O', 'C[C@H](/C=C/C)O',
-                                                                             'C[C@H](O)/C=C\\[C@@H](C)N', 'C1C[C@H]2CC[C@@H]1C2', 'C[C@@H]1CC[C@@]2(C1)CCCO2']
+                                                                             'C[C@H](O)/C=C\\[C@@H](C)N', 'C1C[C@H]2CC[C@@H]1C2', 'C[C@@H]1CC[C@@]2(C1)CCCO2'] + AXIAL
     if tier == 'thorough':
         fam += M.corpus(stride=8)
     else:
@@ -183,6 +192,11 @@ def run_spellings(shard):
             if same is False:
                 tg = knownclass.TAG if (knownclass.ct_closure(out) or knownclass.ct_closure(text)) else ''
                 acc.fail('reading a %s spelling changes the configuration (judged by RDKit)%s :: %s' % (src, tg, s), mol=s, text=text, got=out, script=script)
+            elif src == 'own' and not knownclass.ct_closure(text):
+                # stereogenicity does not depend on the numbering: a spelling that carries every label is read back with the same number of labels
+                if n_labels(c) != n_labels(m):
+                    acc.fail('number of stereo labels changes when the library reads its own spelling (stereogenic set depends on atom numbering) :: %s' % s, mol=s, text=text,
+                             got=n_labels(c), expected=n_labels(m), script=script)
             acc.outcomes[src] += 1
         if i < 2:
             acc.sample({'molecule': s, 'spellings': len(texts)})
